@@ -79,7 +79,7 @@ Section Derived.
   Proof.
     intros Ha Hb. rewrite !le_cases, (ok_pcmp_flip L OK a b Ha Hb).
     destruct (pcmp L a b) as [[]|]; cbn; split; intros H; try discriminate; try reflexivity.
-    all: try (destruct H as [X1 X2]; exfalso; first [apply X1; auto; fail | apply X2; auto; fail]).
+    all: try (exfalso; first [apply (proj1 H); auto; fail | apply (proj2 H); auto; fail]).
     split; intros [X|X]; discriminate.
   Qed.
 
